@@ -24,6 +24,7 @@ def run(prog, tier):
     CR.frame_reader_rule(prog, res, 'codec-agree/frame-read')
     CR.data_offset_rule(prog, res, 'codec-agree/data-offset')
     CR.copy_completeness_rule(prog, res)
+    CR.default_scale_rule(prog, res)
     # the data section is sized from the header after updateHeader() reconciled it with the parameters just read:
     # the reconciliation table is part of what a load depends on
     import p_c05
